@@ -243,12 +243,53 @@ def listExtraLiteral : List InpCrown → List Val
   | .none :: r => .dict [] :: listExtraLiteral r
   | _ :: r => .none :: listExtraLiteral r
 
+/-- `emit_error(e)` followed by the rest of the node, whose value is `v` -/
+def emitThen (cfg : LoadCfg) (p : Path) (e : LErr) (v : Val) (st : LState) : LState × Res Val :=
+  match emit cfg p e st with
+  | (st2, .ok ()) => (st2, .ok v)
+  | (st2, .raised e) => (st2, .raised e)
+  | (st2, .fatal es) => (st2, .fatal es)
+
+/-- the extra-policy fragment at the end of `_gen_dict_crown`:
+    ```
+    ExtraForbid : extra_set = set(data) - known_keys; if extra_set: <emit ExtraFieldsLoadError(extra_set, data)>
+    ExtraCollect: for key in set(data) - known_keys: extra[key] = data[key]
+    ``` -/
+def dictPolicy (cfg : LoadCfg) (p : Path) (pol : Policy) (known : List String) (d : Val)
+    (extra : List (String × Val)) (st : LState) : LState × Res Val :=
+  match pol with
+  | .forbid =>
+    if (unknownKeys known d).isEmpty then (st, .ok (.dict extra))
+    else emitThen cfg p (.extraFields (unknownKeys known d) d) (.dict extra) st
+  | .collect => (st, .ok (.dict (extra ++ unknownItems known d)))
+  | .skip => (st, .ok (.dict extra))
+
+/-- the length check at the end of `_gen_list_crown`:
+    ```
+    ExtraForbid: if len(data) != n: if len(data) < n: <emit NoRequiredItems(n)> else: <emit ExtraItems(n)>
+    otherwise  : if len(data) < n: <emit NoRequiredItems(n)>
+    ``` -/
+def listLength (cfg : LoadCfg) (p : Path) (pol : Policy) (n : Nat) (d : Val) (extra : List Val) (st : LState) :
+    LState × Res Val :=
+  if pol == .forbid then
+    if d.len != n then
+      if d.len < n then emitThen cfg p (.noRequiredItems n d) (.list extra) st
+      else emitThen cfg p (.extraItems n d) (.list extra) st
+    else (st, .ok (.list extra))
+  else
+    if d.len < n then emitThen cfg p (.noRequiredItems n d) (.list extra) st
+    else (st, .ok (.list extra))
+
+/-- `type(data) is str` -/
+def Val.isStr : Val → Bool
+  | .str _ => true
+  | _ => false
+
 mutual
 /-- code of `_gen_dict_crown` / `_gen_list_crown` for the node at path `p` once its datum `d` has been
     extracted; the result is the node's `extra_<n>` value -/
 def loadBranch (cfg : LoadCfg) (p : Path) (d : Val) : InpCrown → LState → LState × Res Val
   | .dict m pol, st =>
-    let known := knownKeys m
     wrap cfg p (.dict []) <|
       match loadDictChildren cfg p d (requiredKeys cfg m) m false false [] st with
       | (st1, .raised e) => (st1, .raised e)
@@ -256,46 +297,18 @@ def loadBranch (cfg : LoadCfg) (p : Path) (d : Val) : InpCrown → LState → LS
       | (st1, .ok (checked, extra)) =>
         -- `if not isinstance(data, CollectionsMapping): raise ...` unless already type checked
         if !checked && !d.isMapping then raiseBadType cfg p (.typeLoad "Mapping" d) st1
-        else
-          match pol with
-          | .forbid =>
-            let unk := unknownKeys known d
-            if unk.isEmpty then (st1, .ok (.dict extra))
-            else
-              match emit cfg p (.extraFields unk d) st1 with
-              | (st2, .ok ()) => (st2, .ok (.dict extra))
-              | (st2, .raised e) => (st2, .raised e)
-              | (st2, .fatal es) => (st2, .fatal es)
-          | .collect =>
-            -- `for key in set(data) - known_keys: extra[key] = data[key]`
-            (st1, .ok (.dict (extra ++ unknownItems known d)))
-          | .skip => (st1, .ok (.dict extra))
+        else dictPolicy cfg p pol (knownKeys m) d extra st1
   | .list m pol, st =>
-    let n := m.length
     wrap cfg p (.list (listExtraLiteral m)) <|
       -- `if type(data) is str: raise ExcludedTypeLoadError(...)` (strict_coercion only)
-      if cfg.strict && (match d with | .str _ => true | _ => false) then raiseBadType cfg p (.excludedType d) st
+      if cfg.strict && d.isStr then raiseBadType cfg p (.excludedType d) st
       else
-        match loadListChildren cfg p d n m 0 false [] st with
+        match loadListChildren cfg p d m.length m 0 false [] st with
         | (st1, .raised e) => (st1, .raised e)
         | (st1, .fatal es) => (st1, .fatal es)
         | (st1, .ok (checked, extra)) =>
           if !checked && !d.isSequence then raiseBadType cfg p (.typeLoad "Sequence" d) st1
-          else
-            let len := d.len
-            let after (r : LState × Res Unit) : LState × Res Val :=
-              match r with
-              | (st2, .ok ()) => (st2, .ok (.list extra))
-              | (st2, .raised e) => (st2, .raised e)
-              | (st2, .fatal es) => (st2, .fatal es)
-            if pol == .forbid then
-              if len != n then
-                if len < n then after (emit cfg p (.noRequiredItems n d) st1)
-                else after (emit cfg p (.extraItems n d) st1)
-              else (st1, .ok (.list extra))
-            else
-              if len < n then after (emit cfg p (.noRequiredItems n d) st1)
-              else (st1, .ok (.list extra))
+          else listLength cfg p pol m.length d extra st1
   | .field _, st => (st, .raised ⟨[], .other "TypeError" d⟩)    -- `_gen_root_crown_dispatch` refuses a leaf
   | .none, st => (st, .raised ⟨[], .other "TypeError" d⟩)
 
